@@ -23,9 +23,17 @@ def main():
         rep.mc_violation("C10_reset", r)
     rr = mc.rtamt_mc("C10_devon", F[:6], cfgs, gaps=(2, 3), maxlen=3, dev=["resetKeepsViol"], invariants=["InvC13"],
                      properties=["ActC10"], expect_violation=True)
+    # update() calls that leave variables out (they keep their last value; after a reset: the default of the declaration)
+    r3 = mc.rtamt_mc("C10_partial", F[:10] + dup[:3], [mc.std_cfg(["x", "y"])], vals=(-2, 3), maxlen=3, mode="partial",
+                     invariants=["InvC10", "InvC02"], properties=["ActC10"])
+    rep.add_mc("reset at every point of every history of partial updates (a variable left out keeps its value, 0 after a reset)", r3)
+    if r3["violated"]:
+        rep.mc_violation("C10_partial", r3)
+    r4 = mc.rtamt_mc("C10_devon3", F[:6], [mc.std_cfg(["x", "y"])], vals=(-2, 3), maxlen=2, mode="partial", dev=["resetKeepsInputs"],
+                     invariants=["InvC10"], properties=["ActC10"], expect_violation=True)
     r2 = mc.rtamt_mc("C10_devon2", F[:6], cfgs, gaps=(2, 3), maxlen=3, dev=["staleKeepsViol"], invariants=["InvC13"],
                      properties=["ActC10"], expect_violation=True)
-    rep.extra["deviation_on_counterexample"] = {"resetKeepsViol": rr["violated"], "staleKeepsViol (reset() after a second pastify())": r2["violated"]}
+    rep.extra["deviation_on_counterexample"] = {"resetKeepsInputs": r4["violated"], "resetKeepsViol": rr["violated"], "staleKeepsViol (reset() after a second pastify())": r2["violated"]}
 
     # (B) specification -> code: behaviours of the life-cycle machine simulated by TLC, replayed on the real library
     import behaviours
@@ -76,9 +84,14 @@ def main():
                 o_.update(dt_obj(phi, S, vs, factory=fac, period=10, tol=1, tS=10, text="out = " + to_text(written, S), written=written,
                                  units={"def": default, "pnum": 1, "pden": 1, "punit": "s"}, unit=default, set_period=[1, "s", 0.1]))
         evs = [ev_parse(1)] + ([ev_reset(1)] if early_reset else []) + ([ev_pastify(1)] if pastify else [])
+        # a third of the lives leave variables out of some update() calls: they keep their last value - after a reset() the
+        # default value of the declaration, like on a new object
+        part = rng.random() < 0.35
+        def cut(s_):
+            return {v_: x_ for v_, x_ in s_.items() if not (part and rng.random() < 0.35)}
         t = 0
         for k in range(pre):
-            evs.append(ev_update(t, sample_at(w1, k), 1))
+            evs.append(ev_update(t, cut(sample_at(w1, k)), 1))
             t += rng.choice([10, 10, 5, 20, 13])
         late = not (ops_of(phi) & FUT) or pastify          # the installed formula has no future operator: pastify() again is harmless
         if late and rng.random() < 0.2:
@@ -91,7 +104,7 @@ def main():
             ws = gen_trace(rng, vs, rng.choice([1, 2, 3, 5]), S)
             t = rng.choice([0, 30])
             for k in range(len(ws[vs[0]])):
-                evs.append(ev_update(t, sample_at(ws, k), 1))
+                evs.append(ev_update(t, cut(sample_at(ws, k)), 1))
                 t += rng.choice([10, 10, 5, 20, 13])
             if late and rng.random() < 0.2:
                 evs.append(ev_pastify(1))
@@ -99,8 +112,9 @@ def main():
         evs += [ev_parse(2)] + ([ev_pastify(2)] if pastify else [])
         t1, t2 = rng.choice([0, 50, 1000]), 0
         for k in range(post):
-            evs.append(ev_update(t1, sample_at(w2, k), 1))
-            evs.append(ev_update(t2, sample_at(w2, k), 2))
+            sk = cut(sample_at(w2, k))
+            evs.append(ev_update(t1, sk, 1))
+            evs.append(ev_update(t2, dict(sk), 2))
             gap = rng.choice([10, 10, 10, 20])
             t1 += gap; t2 += gap
         cases.append(case([o1, o2], evs, rels=[{"rel": "same_on", "x": 1, "y": 2}]))
